@@ -653,6 +653,54 @@ fn integers(report: &Report) {
         narrow("u64", from_value::<u64>(&val).map(|x| x as i128).map_err(|e| e.to_string()), v, v >= 0);
         narrow("i64", from_value::<i64>(&val).map(|x| x as i128).map_err(|e| e.to_string()), v, true);
     }
+    // integer *keys* of Rust maps: a key becomes its decimal text (as serde_json does) or the
+    // conversion refuses; never the text of another integer
+    {
+        use std::collections::BTreeMap;
+        let mut keycheck = |label: &str, got: Result<Value, String>, want_keys: Vec<String>| {
+            n += 1;
+            report.eval();
+            let ok = match &got {
+                Err(_) => true,
+                Ok(v) => match v.as_object() {
+                    Some(o) => {
+                        let mut ks: Vec<String> = o.keys().map(|k| k.to_string()).collect();
+                        ks.sort();
+                        let mut w = want_keys.clone();
+                        w.sort();
+                        ks == w
+                    }
+                    None => false,
+                },
+            };
+            if !ok {
+                report.violation(&format!("C12|integer-map-key|{label}"), n, json!({"kind":"integer","path":format!("to_value(&BTreeMap<{label}, _>)"),"value":want_keys}), format!("keys {want_keys:?} became {got:?}"));
+            }
+        };
+        macro_rules! keys_of {
+            ($t:ty, $vals:expr) => {{
+                let vals: Vec<$t> = $vals;
+                let m: BTreeMap<$t, i32> = vals.iter().map(|k| (*k, 1)).collect();
+                let want: Vec<String> = m.keys().map(|k| k.to_string()).collect();
+                keycheck(stringify!($t), to_value(&m).map_err(|e| e.to_string()), want.clone());
+                keycheck(concat!(stringify!($t), " via to_object"), liquid_core::model::to_object(&m).map(Value::Object).map_err(|e| e.to_string()), want.clone());
+                // one key at a time as well (a map of several keys hides collisions)
+                for k in m.keys() {
+                    let one: BTreeMap<$t, i32> = std::iter::once((*k, 1)).collect();
+                    keycheck(stringify!($t), to_value(&one).map_err(|e| e.to_string()), vec![k.to_string()]);
+                }
+            }};
+        }
+        keys_of!(u64, vec![0, 1, i64::MAX as u64, i64::MAX as u64 + 1, u64::MAX - 1, u64::MAX]);
+        keys_of!(i64, vec![i64::MIN, -1, 0, i64::MAX]);
+        keys_of!(usize, vec![0, usize::MAX, (isize::MAX as usize) + 1]);
+        keys_of!(u32, vec![0, u32::MAX, i32::MAX as u32 + 1]);
+        keys_of!(i32, vec![i32::MIN, -1, i32::MAX]);
+        keys_of!(u8, vec![0, 127, 128, 255]);
+        keys_of!(i8, vec![-128, -1, 127]);
+        keys_of!(u16, vec![0, 32_768, 65_535]);
+        keys_of!(i16, vec![-32_768, 32_767]);
+    }
     // the way back for integers that were carried as floats: a float value read into an integer
     // type is refused or is *exactly* that integer (as mathematics, not as a saturating cast)
     let mut from_float = |label: &str, got: Result<i128, String>, f: f64| {
@@ -711,7 +759,7 @@ fn integers(report: &Report) {
         }
     }
     report.nontrivial.fetch_add(n, Ordering::Relaxed);
-    report.family(FamilyStat { name: "integers across the u64/i64 boundaries".into(), cases: n, nontrivial: n, skipped: 0, note: "in: Err or the nearest double, never another integer; out: narrowing is exact or an error; floats read into integer types (10 types, Option, Vec, struct fields) are refused or exactly equal; u64 out-and-back is the identity or refused".into() });
+    report.family(FamilyStat { name: "integers across the u64/i64 boundaries".into(), cases: n, nontrivial: n, skipped: 0, note: "in: Err or the nearest double, never another integer; out: narrowing is exact or an error; floats read into integer types (10 types, Option, Vec, struct fields) are refused or exactly equal; u64 out-and-back is the identity or refused; integer map keys of 9 key types become their own decimal text or are refused".into() });
 }
 
 pub fn run(tier: Tier) -> i32 {
